@@ -19,13 +19,25 @@
 (* calls, each with the value it must return, and the adversary action.  The  *)
 (* harness performs them on real ClientBroker / HandlerBroker (real JSON      *)
 (* encoder, real headers) over in-memory streams delivered in chunks.         *)
+(*                                                                            *)
+(* Delivery.  The readers read FIELDS (one token = one field = one            *)
+(* util.EnsureRead / Read of the code), the transport knows nothing of fields:*)
+(* it hands over the bytes of a FIFO in chunks whose cut points may lie       *)
+(* anywhere.  What a read returns is a function of the tokens only (hops and  *)
+(* cops below do not mention the delivery): every run must give the same      *)
+(* results under every delivery.  Deliveries(f) is the family of deliveries   *)
+(* of a FIFO that the binding performs; section "delivery" defines it, and    *)
+(* the assumptions FamilySpansEveryFieldEnd / DenseNeverSpan (checked by TLC  *)
+(* at start-up) say what it covers.                                           *)
 EXTENDS Integers, Sequences, FiniteSets, TLC, Json
 
 CONSTANTS MaxC,        \* bodies the client writes after the request head
           MaxH,        \* messages the handler writes
           Sizes,       \* body sizes
           Tamper,      \* BOOLEAN: one adversary action per run
-          LenVals      \* names of values written into a length token
+          LenVals,     \* names of values written into a length token
+          CutOffsets,  \* positions of a cut inside a token: subset of {1 (after the first byte), 2 (middle), 3 (before the last byte)}
+          CutWindow    \* a second cut lies at most this many tokens after the token of the first
 
 Data(n) == SubSeq(<<2, 3, 1, 2, 3>>, 1, n)       \* body bytes that look like type bytes
 Bodies  == {[t |-> "body", k |-> "empty", n |-> 0]}
@@ -74,6 +86,70 @@ Parse(s, wantPrefix) ==
               ELSE Bad
          ELSE Bad
     ELSE Bad
+
+-----------------------------------------------------------------------------
+(* ---- delivery: cut points of the byte stream of a token FIFO f ----                     *)
+(* Abstract sizes (the code: prefix 32, length 8, encoder hint and header > 8 bytes):       *)
+(* only "one byte" / "more than one byte" and the position classes of CutOffsets matter.    *)
+Size(t) == CASE t.k \in {"DT", "BT"} -> 1 [] t.k = "DATA" -> t.v [] OTHER -> 4
+Splittable(t) == Size(t) >= 2
+Off(t, o) == CASE o = 1 -> 1 [] o = 2 -> Size(t) \div 2 [] o = 3 -> Size(t) - 1   \* bytes of t before the cut
+
+(* a cut point is the number 10 * i + o: o = 0 the end of token i, o \in 1..3 inside token i *)
+CutTok(c) == c \div 10
+CutPos(c) == c % 10
+MaxSize == 4
+StartOf(f, i) == Cardinality({p \in (1..(i-1)) \X (1..MaxSize) : p[2] <= Size(f[p[1]])})   \* bytes before token i
+Total(f) == StartOf(f, Len(f) + 1)
+Abs(f, c) == StartOf(f, CutTok(c)) + (IF CutPos(c) = 0 THEN Size(f[CutTok(c)]) ELSE Off(f[CutTok(c)], CutPos(c)))
+Bounds(f, ch) == {Abs(f, c) : c \in ch} \cup {Total(f)}                                     \* chunk ends, in bytes
+
+(* A chunk SPANS THE END of field i: the field is split (some chunk ends inside it) and the *)
+(* chunk that completes it carries bytes of what follows (the field's end is no chunk end). *)
+(* A reader that asks for the bytes it still misses never sees the difference; a reader     *)
+(* that asks for more (the whole field again, the rest of its buffer, ...) swallows bytes   *)
+(* of the next field exactly under such a delivery.                                         *)
+SpansEnd(a, e, B) == e \notin B /\ \E b \in B : a < b /\ b < e        \* the field occupies bytes a+1..e
+Fields(f) == {<<StartOf(f, i), StartOf(f, i + 1), Splittable(f[i]) /\ i < Len(f)>> : i \in 1..Len(f)}
+
+(* the dense deliveries: everything at once, byte by byte, one chunk per Write call, and    *)
+(* one chunk per Write call with every length token halved                                  *)
+BAll(f)   == {Total(f)}
+BOne(f)   == 1..Total(f)
+BTok(f)   == Bounds(f, {10 * i : i \in 1..Len(f)})
+BInLen(f) == Bounds(f, {10 * i : i \in 1..Len(f)} \cup {10 * i + 2 : i \in {j \in 1..Len(f) : f[j].k = "L"}})
+
+(* the sparse deliveries: one cut inside a token and the rest in one chunk; or a second cut *)
+(* later in the same token, or inside / at the end of one of the next CutWindow tokens - in *)
+(* particular "inside field k, then a chunk spanning the end of field k and part of k+1"    *)
+CutsIn(f, j)   == IF Splittable(f[j]) THEN {10 * j + o : o \in CutOffsets} ELSE {}
+CutsUpTo(f, j) == CutsIn(f, j) \cup (IF j < Len(f) THEN {10 * j} ELSE {})
+(* a delivery is written as one number: c for the single cut c, 1000 * c + d for the cuts c < d *)
+Later(f, i, c)  == {d \in CutsIn(f, i) : Off(f[i], CutPos(d)) > Off(f[i], CutPos(c))}
+Near(f, i)      == UNION {CutsUpTo(f, j) : j \in {x \in 1..Len(f) : i < x /\ x <= i + CutWindow}}
+SparseAt(f, i)  == UNION {{c} \cup {1000 * c + d : d \in Later(f, i, c) \cup Near(f, i)} : c \in CutsIn(f, i)}
+Sparse(f)       == UNION {SparseAt(f, i) : i \in 1..Len(f)}
+CutsOf(dl)      == IF dl < 1000 THEN {dl} ELSE {dl \div 1000, dl % 1000}
+Deliveries(f) == Sparse(f)       \* the dense ones are performed for every run by name
+
+(* ---- what the family covers, for every FIFO a run can write ----                          *)
+SeqsUpTo(S, n) == UNION {[1..k -> S] : k \in 0..n}
+WrittenFifos == {Flat(<<Req>> \o bs) : bs \in SeqsUpTo(Bodies, MaxC)}
+                  \cup {Flat(ms) : ms \in SeqsUpTo(Resps \cup Bodies, MaxH)}
+(* every field that can be split and is not the last one of its FIFO is, under some sparse  *)
+(* delivery, completed by a chunk that spans its end ...                                    *)
+FamilySpansEveryFieldEnd ==
+  \A f \in WrittenFifos :
+    LET bs == {Bounds(f, CutsOf(dl)) : dl \in Deliveries(f)} IN
+    \A fd \in Fields(f) : fd[3] => \E B \in bs : SpansEnd(fd[1], fd[2], B)
+(* ... and no dense delivery ever does: with them alone a reader that over-asks on its      *)
+(* second read of a field cannot be told from a correct one                                 *)
+DenseNeverSpan ==
+  \A f \in WrittenFifos :
+    LET bs == {BAll(f), BOne(f), BTok(f), BInLen(f)} IN
+    \A fd \in Fields(f) : \A B \in bs : ~SpansEnd(fd[1], fd[2], B)
+ASSUME FamilySpansEveryFieldEnd
+ASSUME DenseNeverSpan
 
 -----------------------------------------------------------------------------
 VARIABLES pc,     \* "cw" client writes, "h" handler runs, "cr" client reads, "done"
@@ -198,7 +274,8 @@ CRead(o) ==                       \* ReadResponseHead / ReadBody
   /\ UNCHANGED <<pc, cmsgs, hmsgs, c2h, h2c, hpos, hops, hstop, tam, step>>
 
 Out == ToJson([cmsgs |-> cmsgs, hops |-> hops, cops |-> cops, tam |-> tam,
-               ntok |-> [c2h |-> Len(Flat(cmsgs)), h2c |-> Len(Flat(hmsgs))]])
+               ntok |-> [c2h |-> Len(Flat(cmsgs)), h2c |-> Len(Flat(hmsgs))],
+               cuts |-> [c2h |-> Deliveries(c2h), h2c |-> Deliveries(h2c)]])
 
 CFinishRead ==
   /\ pc = "cr" /\ (cstop \/ cpos = Len(Flat(hmsgs)))
